@@ -24,11 +24,12 @@ def run():
         "post-filter); rehash's task closure composed with the hash closure of every stage (a member is sent iff the hash "
         "function returned Some, every member of the id-group is sent exactly once, id-groups of 2 paths); the unique_by key of "
         "deduplicate is the 128-bit path hash.",
-        assumptions=["128-bit path hash treated as injective", "sub-group counting itself (IndexMap) is a free symbol",
+        assumptions=["MetroHash128 treated as injective on the byte stream it is fed (what is fed is checked)", "sub-group counting itself (IndexMap) is a free symbol",
                      "thread pools / channels deliver every sent item (plumbing outside the claim)"],
         outside=["the walk (C09)", "hard-link sub-group counting", "rayon/crossbeam plumbing"])
     ctx = oblig.Ctx()
     prog = ctx.lib
+    oblig.install_battery(rep, ctx, ["c03_battery"])
 
     def finish(o, scenario):
         if o.verdict == "violated" and scenario:
@@ -109,7 +110,15 @@ def run():
         dd = prog.find(r"^(group::)?deduplicate$")
         kcl = [g for g in prog.closures_of(dd) if g.ret.strip() == "u128"]
         if len(kcl) != 1:
-            raise Inconclusive("unique_by key closure of deduplicate: %d candidates" % len(kcl))
+            # no closure computing a 128-bit key: the collapsing is not keyed by the path hash any more; the abstract verdict is
+            # confirmed (or not) by the native battery
+            o = Obligation("deduplicate: same-path collapsing is keyed by the 128-bit hash of the whole path", "E2 mirsym/z3", fn())
+            o.key = "deduplicate:key"
+            o.verdict = "violated"
+            o.detail = "deduplicate has %d closures returning a 128-bit key (expected: the unique_by key = Path::hash128)" % len(kcl)
+            o.cex = {"closures": [g.name[-80:] for g in prog.closures_of(dd)]}
+            rep.add(o)
+            return
         ps = eng.run(kcl[0])
 
         def prop(p):
@@ -120,6 +129,14 @@ def run():
         rep.add(oblig.check_paths(eng, ps, "deduplicate: same-path collapsing is keyed by the 128-bit hash of the whole path", prop, fn(),
                                   key="deduplicate:key"))
     guarded("deduplicate", dedup)
+    from obligations import path_kernels
+    guarded("path hash", lambda: path_kernels.hash128_obligations(rep, prog, "C03"))
+
+    # the statement holds for every configuration "including ... cache": a cache that serves a wrong (length, hash) splits or merges classes
+    def cache():
+        from obligations import C12
+        C12.add_obligations(rep, ctx)
+    guarded("hash cache", cache)
     return rep
 
 
